@@ -108,7 +108,7 @@ func runRFaultOnce(ws *WSeg, prog []ROp, fault *ReadFault, maxReadsPerCall int, 
 			firedBeforeOp := ra.FiredCount()
 			callStartReads := ra.Calls()
 			callStartFired := ra.FiredCount()
-			hooks := &ropHooks{sched: sched}
+			hooks := &ropHooks{sched: sched, retry: true}
 			hooks.after = func(api string, err error, empty bool) bool {
 				reads := ra.Calls() - callStartReads
 				fired := ra.FiredCount() - callStartFired
